@@ -569,7 +569,53 @@ def r7_numeric_range(ctx):
     c09.r2_primitive_table(Renamed(ctx, "C10.R7", "an out-of-range or ill-typed scalar is a parse error of the declared type, never a silently narrowed value"))
 
 
-RULES = [("C10.R7", r7_numeric_range), ("C10.R6", r6_one_step_decode), ("C10.R1", r1_short_circuit), ("C10.R2", r2_tuples), ("C10.R3", r3_error_class), ("C10.R4", r4_panic_census), ("C10.R5", r5_content_type_gate)]
+
+def r8_registration_guard_is_total(ctx):
+    """The panic census (R4) allow-lists from_map's `unimplemented!` stubs because registration refuses every parameter type
+    that could reach them; that guard is C02.R5b (the scalar check covers every alternative), re-evaluated here because
+    its violation is a C10 violation too (seed C10-C: oneOf checked with `any` instead of `all`)."""
+    from . import c02
+    from .lib_c01 import Renamed
+    c02.r5b_scalar_check_is_total(Renamed(ctx, "C10.R8", "no accepted path/query parameter type can reach a decoder stub that panics"))
+
+
+def r9_unreadable_content_type_is_refused(ctx):
+    """Added after adversary change C10-D (`hv.to_str().ok()` + `unwrap_or(JSON)`: a Content-Type header with non-ASCII bytes
+    was treated as absent, i.e. as JSON, and the handler ran)."""
+    from .lib import result_split, http_error_ctors_on_error_path
+    R = ctx.rule("C10.R9", "the JSON default applies only when the Content-Type header is absent: an unreadable header value (to_str() fails) is refused with for_bad_request, never discarded", floor=3)
+    top = ctx.need_fn(ctx.ds, R, r"^extractor::body::http_request_load_body$")
+    f = ctx.ds.body_of(top)
+    fns = [f] + ctx.ds.descendants(f)
+    sites = [(g, bb, t) for g in fns for bb, t in g.live_calls(r"http::HeaderValue::to_str$")]
+    ctx.check(R, "to_str-sites", len(sites) == 1, "HeaderValue::to_str call sites on the body path: %d" % len(sites), f)
+    for g, bb, t in sites:
+        dest = t["dest"]["l"]
+        discarded = [c for bb2, t2 in g.live_calls(r"Result::<T, E>::(ok|unwrap_or|unwrap_or_default|unwrap_or_else|is_ok|is_err)$") if (t2["args"] and g.slice(t2["args"][0]).touches_local(dest)) for c in [t2["callee"]]]
+        ctx.check(R, "to_str-error-not-discarded", not discarded, "the Result of to_str() is consumed by %s" % (discarded or "no error-discarding combinator"), (g, bb))
+        # where does its Err go?  in the closure form: map_err(closure -> for_bad_request) inside Option::map, then `?` in the parent
+        ret = g.slice({"l": 0, "p": []}) if g is not f else None
+        names = set()
+        sp = result_split(g, dest)
+        if sp:
+            names |= http_error_ctors_on_error_path(g, sp)
+        for mbb, mt in g.live_calls(r"Result::<T, E>::map_err$"):
+            if g.slice(mt["args"][0]).touches_local(dest):
+                from .lib import closure_args_of_call
+                for h, node in closure_args_of_call(g, mt):
+                    names |= set(c for c in h.slice({"l": 0, "p": []}).callee_names() if c.startswith("error::HttpError::for_"))
+        ctx.check(R, "to_str-error-is-400", names == {"error::HttpError::for_bad_request"}, "constructors producing the error of an unreadable header: %s" % (sorted(names) or "none"), (g, bb))
+    # the JSON default constant is used only as the absent-header default (Option::unwrap_or / None arm), not for Err
+    dflt = [(bb, t) for bb, t in f.live_calls(r"Option::<T>::(unwrap_or|unwrap_or_else|map_or|map_or_else)$") if any(a[0] == "const" and a[1].endswith("CONTENT_TYPE_JSON") for a in f.slice(t["args"][1 if not t["callee"].endswith(("map_or", "map_or_else")) else 1]).atoms)]
+    ok = False
+    for bb, t in dflt:
+        rs = f.slice(t["args"][0])
+        ok = rs.has_call(r"http::HeaderMap::<T>::get$") and not rs.has_call(r"Result::<T, E>::ok$|Option::<T>::and_then$|Option::<T>::filter$")
+    ctx.check(R, "json-default-only-when-absent", ok or not dflt and bool(f.const_uses(r"CONTENT_TYPE_JSON$")),
+              "the JSON default is the `None` case of headers.get(CONTENT_TYPE) with nothing (and_then / ok / filter) turning a present header into None: %s" % ok, f)
+
+
+RULES = [("C10.R9", r9_unreadable_content_type_is_refused), ("C10.R8", r8_registration_guard_is_total), ("C10.R7", r7_numeric_range), ("C10.R6", r6_one_step_decode), ("C10.R1", r1_short_circuit), ("C10.R2", r2_tuples), ("C10.R3", r3_error_class), ("C10.R4", r4_panic_census), ("C10.R5", r5_content_type_gate)]
 
 _LOAD_BODY_HV = """            hv.to_str().map_err(|e| {
                 HttpError::for_bad_request(
@@ -757,3 +803,5 @@ SELFTEST = [
 ]
 
 LEVEL_TEXT += ' Also (R6): typed bodies are decoded in one step from the raw bytes straight into the declared type (never through serde_json::Value, which merges duplicate keys); (R7 = C09.R2): each scalar is parsed as exactly its declared type, so out-of-range numbers are parse errors.'
+
+LEVEL_TEXT += " Also (R8 = C02.R5b): registration's scalar check covers every schema alternative, which keeps the decoder's panicking stubs unreachable; (R9): an unreadable Content-Type header is refused (400), the JSON default applies only when the header is absent."
